@@ -164,8 +164,9 @@ def run(ctx, rep):
         _strategy_body(ctx, rep, f, st[0])
         # `continue` in the per-book loop only for CLOSED books
         cfgc = ctx.cfg(f)
+        inner_conts = {id(x) for lp_ in walk_nodes(ob.body, (ast.For, ast.While)) for x in walk_nodes(lp_.body, ast.Continue)}
         for n in cfgc.live_nodes():
-            if n.kind == "stmt" and isinstance(n.ast, ast.Continue):
+            if n.kind == "stmt" and isinstance(n.ast, ast.Continue) and id(n.ast) not in inner_conts:
                 gs = [(utext(g.exprs[0]), pol) for g, pol in cfgc.guards(n.id)]
                 rep.check(("market_book.status == 'CLOSED'", True) in gs, "R3",
                           key(f, None, "an update is skipped only when it closes the market"), f, n.ast, str(gs))
